@@ -36,7 +36,7 @@ class Harness:
     def run(self):
         c = engine.CTX
         N, L, X = self.N, self.L, self.x
-        m = SymMgr(N, self.K, L, with_cache=True)
+        m = SymMgr(N, self.K, L, with_cache=True, cache_model='assoc', cache_entries=1)
         m.assume_pre()
         bdd = m.install(self.B)
         st0, st, den, ext = m.st0, m.st, m.den, m.ext
